@@ -3769,7 +3769,9 @@ FROM (
 
         sql = f"SELECT {', '.join(cols)} FROM ({validation_sql}) AS t"
         if imbalance_sql is not None and join_cond is not None:
-            sql += f" JOIN ({imbalance_sql}) AS i ON {join_cond}"
+            # LEFT JOIN: a datapoint of the validated operand without a matching
+            # imbalance datapoint is still reported (with a null imbalance).
+            sql += f" LEFT JOIN ({imbalance_sql}) AS i ON {join_cond}"
         if node.invalid:
             sql += f" WHERE {bool_ref} IS FALSE"
         return sql
